@@ -133,7 +133,7 @@ func (c fcrlA) served() bool { return c.Status == 0 || c.Status == 200 }
 var c18issuer *Cert
 var c18cache sync.Map // key -> parsed CRL
 
-func (c fcrlA) key() string { return fmt.Sprintf("%d|%s|%s", c.ID, c.Next, c.Fresh.term()) }
+func (c fcrlA) key() string { return fmt.Sprintf("%d|%s|%x", c.ID, c.Next, c.Fresh.der()) }
 func (c fcrlA) der() []byte {
 	if v, ok := c18cache.Load("der:" + c.key()); ok {
 		return v.([]byte)
